@@ -314,7 +314,8 @@ func run(c *vf.Ctx) {
 	c.Assume("interpolated percentiles, sums, means and moments over data containing a non-numeric string are not asserted (usage: 'the rest require numeric input')")
 	c.Assume("skewness and kurtosis follow the function-help examples: m3/(s^2)^1.5 with s^2 the (n-1)-variance, and m4/m2^2-3 with m2 the n-variance; undefined (variance 0) cells are not asserted")
 	c.Assume("tie order among equally frequent values in most-frequent/least-frequent and among equal values in top -a is not asserted (predicate: counts sorted, every pair correct, multiset of counts equals the top-k)")
-	c.Assume("step: the first ratio value, and every history-dependent stepper value after a record lacking the value field or holding an empty/non-numeric value in the same group, are not asserted")
+	c.Assume("step, positional steppers (slwin_m_n, shift/shift_lag_k, shift_lead_k, delta_k, ratio_k) are position-local: the window/source is made of the group's RECORDS (usage: 'm records back and n forward', 'from the previous record', 'n records back'); a record holding an empty value or lacking the field is missing data (reference-main-null-data.md): it keeps its place in the window, contributes neither to the sum nor to the divisor of a window average, a window without any contributing value has no average (empty, never a number), and shift_lag from it includes nothing (empty). Not asserted: a window average over a window holding a non-numeric text; delta/ratio when this record's value or the one k back is empty/text/lacking; the first ratio_k values; shift_lead onto a record lacking the field; any stepper output on a record that itself lacks the field")
+	c.Assume("step, cumulative steppers: counter/rsum/rprod on a record with an empty value, ewma/from-first after an empty value, and all of them after a non-numeric text in the group, are not asserted")
 	c.Assume("stats1 -s: what happens to a record lacking a group-by field is not stated and not asserted (for -w the usage text promises one output record per input record, which is asserted)")
 	c.Assume("DSL: sum/mean/variance/... over a collection holding a non-numeric string, and order statistics over a collection holding an empty string, are not asserted; the sparkline function is not covered")
 	c.Assume("histogram: a value exactly on an inner bin edge may fall on either side when nbins/(hi-lo) is not exactly representable; --auto on a zero-width range is not asserted; fraction over a zero group sum is not asserted")
@@ -392,6 +393,19 @@ func run(c *vf.Ctx) {
 		if strings.HasPrefix(k, "boundary_reading:") && v > 0 {
 			c.Extra["percentile_boundary_reading_on_documented_example"] = strings.TrimPrefix(k, "boundary_reading:")
 		}
+	}
+	c.Extra["step_missing_value_cells_asserted"] = c.Counters["step_missing_value_cells"]
+	slw := map[string]int64{}
+	for k, v := range c.Counters {
+		if strings.HasPrefix(k, "slwin_window:") {
+			slw[strings.TrimPrefix(k, "slwin_window:")] = v
+		}
+	}
+	c.Extra["slwin_windows_with_missing_values_asserted"] = slw
+	if c.Quick() {
+		c.Extra["bounds_added_2"] = "step with missing values in the window: every stream n<=6 over {1,5,empty,absent} x 3 stepper lists (13 backward-only incl. slwin_0..3_0; 7 with look-forward 1 incl. slwin_0..3_1; 6 with look-forward 2-3); every stream n<=4 over {a,b} x {1,5,empty,absent} with -g g x 2 lists; backward-only window list also on the 9-symbol main streams (n<=4), the two-field streams (now {1,2.5,empty,absent}^2, n<=3) and the one-field group streams (n<=3)"
+	} else {
+		c.Extra["bounds_added_2"] = "step with missing values in the window: n<=8 over {1,5,empty,absent} x 3 stepper lists; n<=5 over {a,b} x {1,5,empty,absent} with -g g x 2 lists; backward-only window list on the main streams (n<=5), two-field streams ({1,2.5,empty,absent}^2, n<=4) and one-field group streams"
 	}
 	c.Extra["accumulator_table"] = accumulatorNames()
 	c.Extra["stepper_table"] = stepperNames()
